@@ -104,6 +104,43 @@ func DiskOp(kind, path string) error {
 	return nil
 }
 
+// SQLOp is called by the simulated-clock sqlite driver before every statement
+// that changes the database. Statements are atomic (sqlite's journal is
+// trusted), so the statement boundary is the crash granularity: the op is
+// numbered with the node's disk ops and may be the node's crash point (the
+// statement is then NOT executed). It is not a scheduling point: database/sql
+// holds native locks around driver calls, and a task must not give the baton
+// away with such a lock held. No error injection.
+func SQLOp(stmt string) error {
+	s, t := Cur()
+	if t == nil {
+		return nil
+	}
+	if t.dead {
+		return ErrCrashed
+	}
+	n := t.Node
+	d := s.Disk()
+	n.DiskOps++
+	d.Ops++
+	if d.OpLogOn {
+		d.OpLog = append(d.OpLog, fmt.Sprintf("%s#%d sql %s", n.Name, n.DiskOps, stmt))
+	}
+	if s.cfg.Trace {
+		s.Logf("disk %s#%d sql %s", n.Name, n.DiskOps, stmt)
+	} else {
+		s.mixHash(uint64(n.DiskOps)<<16 | 3)
+		s.hashString(stmt)
+	}
+	if n.CrashAt != 0 && n.DiskOps == n.CrashAt {
+		s.Fault("crash")
+		s.Probe("crash_at_sql_statement")
+		s.Logf("crash at disk op %d (sql %s)", n.DiskOps, stmt)
+		s.KillNode(n) // does not return
+	}
+	return nil
+}
+
 func shortPath(p string) string {
 	// strip every "<anything>/ksim-<pid>-<seq>" prefix (also inside "a -> b")
 	for {
